@@ -446,7 +446,7 @@ func matchKnown(known []knownFinding, id, harness string, f sym.Finding) *knownF
 }
 
 func writeReplay(id, harness string, n int, f sym.Finding, params map[string]int, nr *nativeResult) string {
-	dir := filepath.Join(verifDir(), "replays", id)
+	dir := filepath.Join(outDir(), "replays", id)
 	os.MkdirAll(dir, 0o755)
 	name := fmt.Sprintf("%s-%s-%d.json", strings.ReplaceAll(harness, ".", "_"), sanitize(f.Label), n)
 	path := filepath.Join(dir, name)
@@ -557,13 +557,13 @@ func writeEvidence(id, tier string, seed int, specs []harnessSpec, results []*sy
 		cov["states"] = 1
 		cov["transitions"] = 1
 	}
-	os.MkdirAll(filepath.Join(verifDir(), "evidence"), 0o755)
+	os.MkdirAll(filepath.Join(outDir(), "evidence"), 0o755)
 	b, _ := json.MarshalIndent(ev, "", " ")
-	os.WriteFile(filepath.Join(verifDir(), "evidence", id+".json"), b, 0o644)
+	os.WriteFile(filepath.Join(outDir(), "evidence", id+".json"), b, 0o644)
 }
 
 func evidencePatchValidated(id string, n int) {
-	p := filepath.Join(verifDir(), "evidence", id+".json")
+	p := filepath.Join(outDir(), "evidence", id+".json")
 	b, err := os.ReadFile(p)
 	if err != nil {
 		return
